@@ -34,12 +34,12 @@ func DescribeSpxFamilies() {
 
 // spxProps says which harnesses each property's SPX family explores.
 var spxProps = map[string][]string{
-	"C01": {"S1", "S2", "S9"},
+	"C01": {"S1", "S2", "S9", "S17"},
 	"C09": {"S14", "S9"},
 	"C13": {"S16", "S9"},
 	"C06": {"S4", "S10"},
 	"C10": {"S3", "S4", "S13"},
-	"C17": {"S1", "S2", "S3", "S4", "S9", "S10", "S13", "S14", "S16"},
+	"C17": {"S1", "S2", "S3", "S4", "S9", "S10", "S13", "S14", "S16", "S17"},
 	"C18": {"S1", "S6", "S12"},
 	"C02": {"S5", "S8"},
 	"C07": {"S8"},
